@@ -7,3 +7,7 @@ python3 tools/extract.py >/dev/null
 (cd lean && lake build MVoro driver)
 (cd harness && cargo build --offline --no-default-features --features ibig,rayon --target-dir target/ibig_rayon)
 (cd harness && cargo build --offline --release --no-default-features --features ibig,rayon --target-dir target/ibig_rayon)
+# further feature sets used by C09 (no rayon) and C11 (other big-integer backends)
+for f in ibig dashu,rayon malachite,rayon num_bigint,rayon; do
+  (cd harness && cargo build --offline --no-default-features --features $f --target-dir target/$(echo $f | tr , _))
+done
